@@ -1,6 +1,7 @@
 package main
 
 import (
+	"reflect"
 	"sort"
 	"strings"
 )
@@ -49,27 +50,61 @@ func consistentSet(e *Eco, vals []any) bool {
 	return true
 }
 
-// orderFinding: the id of the open finding that covers consequences of an intransitive
-// Compare in this ecosystem ("" if none).
-func orderFinding(eco string) string {
-	if eco == "maven" {
-		return "F-maven-order-cycle"
+// mavenMix: class predicate of F-maven-order-cycle — among the versions involved, one has an
+// unknown qualifier element and one has a release ("" / ga / final / release) or sp element.
+// (Coq: Eco/Maven/VersionFacts.v proves TotalPreorderOn for no_unknown and for no_release_sp.)
+func mavenMix(vals []any) bool {
+	known := map[string]bool{"alpha": true, "a": true, "beta": true, "b": true, "milestone": true, "m": true, "rc": true, "cr": true, "snapshot": true}
+	relsp := map[string]bool{"": true, "ga": true, "final": true, "release": true, "sp": true}
+	hasUnknown, hasRelSp := false, false
+	for _, v := range vals {
+		rv := reflect.ValueOf(v)
+		if rv.Kind() == reflect.Ptr {
+			rv = rv.Elem()
+		}
+		if rv.Kind() != reflect.Struct {
+			continue
+		}
+		el := rv.FieldByName("elements")
+		if !el.IsValid() {
+			continue
+		}
+		for i := 0; i < el.Len(); i++ {
+			x := el.Index(i)
+			if x.FieldByName("isNumber").Bool() {
+				continue
+			}
+			val := x.FieldByName("value")
+			if val.Kind() == reflect.Interface {
+				val = val.Elem()
+			}
+			if val.Kind() != reflect.String {
+				continue
+			}
+			t := val.String()
+			switch {
+			case relsp[t]:
+				hasRelSp = true
+			case !known[t]:
+				hasUnknown = true
+			}
+		}
 	}
-	return ""
+	return hasUnknown && hasRelSp
 }
 
-// classifyOrder fills v.Finding when the values involved do not lie in one linear preorder
-// and the ecosystem has a recorded order finding.  Returns false when the violation should be
-// dropped altogether (inconsistent set but no finding: C01 reports that, not this property).
+// classifyOrder separates a property's own failures from consequences of an intransitive
+// Compare: when the versions involved do not lie in one linear preorder and they fall into the
+// class of the recorded maven finding, the violation is attributed to that finding; any other
+// inconsistency is kept as a violation (it is also what C01 reports).
 func classifyOrder(e *Eco, v *Violation, vals ...any) bool {
 	if consistentSet(e, vals) {
 		return true
 	}
-	if f := orderFinding(e.Name); f != "" {
-		v.Finding = f
+	if e.Name == "maven" && mavenMix(vals) {
+		v.Finding = "F-maven-order-cycle"
 		return true
 	}
-	// an intransitivity without a recorded finding is itself a violation; keep it, marked
 	v.Kind += "+order-inconsistent"
 	return true
 }
